@@ -352,10 +352,4 @@ impl J {
             _ => None,
         }
     }
-    pub fn keys(&self) -> Vec<&str> {
-        match self {
-            J::Obj(m) => m.iter().map(|(k, _)| k.as_str()).collect(),
-            _ => vec![],
-        }
-    }
 }
